@@ -121,6 +121,7 @@ SHARED = [
     ("BRIDGE_3d.v", ("C16",), ("C01", "C02", "C07", "C08")),      # model block entries = iterated integrals over R^3
     ("BRIDGE.v", (), ("C16", "C01", "C02", "C07", "C08")),        # uniqueness / kills-derivatives development
     ("BRIDGE_boys.v", (), ("C03", "C14", "C16")),                 # Phi with Boys values = t-integral over [0,1]
+    ("BRIDGE_coulomb.v", (), ("C03", "C14")),                     # B2 reduced to the exchange of integrals alone
 ]
 
 
